@@ -5,10 +5,17 @@ import warnings
 import numpy as np
 
 from . import common
+from . import c03_modes
 from .common import Corr, f2hex, hex2f, flist
 
 ID = "C03"
-LEAN_MODULES = ["TempestVerif.Props.C03", "TempestVerif.Lemmas.KernelGeom"]
+LEAN_MODULES = ["TempestVerif.Props.C03", "TempestVerif.Lemmas.KernelGeom", "TempestVerif.Props.C03Run",
+                "TempestVerif.Props.C03Modes", "TempestVerif.Lemmas.CholFactor",
+                # second pass: detailed balance => invariance of the LAW (Mathlib kernels), the law of the model's step from the
+                # laws of the tapes (d = 1 and any d; hard, periodic, reflective), capstone with H_modes discharged
+                "TempestVerif.Lemmas.MHKernel", "TempestVerif.Lemmas.GaussianPi", "TempestVerif.Lemmas.FoldPush",
+                "TempestVerif.Lemmas.FoldPushRefl", "TempestVerif.Props.C03Inv", "TempestVerif.Props.C03InvD",
+                "TempestVerif.Props.C03InvP", "TempestVerif.Props.C03InvR", "TempestVerif.Props.C03Cap"]
 RULE = ("suites kernel-step-{tpcn,rwm}: real TPCNRunner/RWMRunner objects on generated inputs: d in 1..5, K in 1..4 modes (means in the "
         "cube, random SPD covariances of scale 0.02..0.3, dof in {0.3,1,2,2.5,5,30,1e6}), 3..7 walkers (8%: a coordinate exactly on a "
         "cube face), random assignments (about 2/3 of the walkers in runners with >= 2 non-empty modes of distinct dof; empty modes "
@@ -29,17 +36,29 @@ MODELLED = ["`d @ M @ d`, einsum('ij,ijk,ik->i'), `chol @ z` and `alpha[mask].me
             "the user's log_likelihood / prior_transform are uninterpreted: the model receives logL of the current and of the "
             "proposed point from the caller (tape); numpy.random.gamma / randn / rand are tapes (their laws — Gamma(shape, scale), "
             "standard normal, uniform, independent across walkers — are assumed, not checked)",
-            "inverse-gamma law of s = 1/g (change of variables), the Jacobian of z -> mu + a(x-mu) + c L z (state-free constant), "
-            "the push-forward of a density under the periodic / reflective fold (sum over preimages) and the passage from density "
-            "identities to Markov kernels on R^d are textbook measure-theoretic steps, not formalised",
-            "np.linalg.inv / np.linalg.cholesky inside ModeStatistics: not modelled; their defining identities are checked on the real "
-            "class by suite mode-stats-consistency and are hypotheses (L invertible, Sigma = L L^T) of the geometry theorems",
+            "measure theory is now FORMAL (Props/C03Inv*.lean on Mathlib's Kernel / gammaMeasure / gaussianReal / Measure.pi): the "
+            "law of the closed model step as a function of the tapes, the density of the candidate (Gaussian under an affine map: "
+            "Lemmas/GaussianPi; tpCN: the gamma draw integrated out by Tonelli, no change of variables s = 1/g needed), the "
+            "push-forward under the periodic fold in any dimension (Lemmas/FoldPush) and under the reflective fold in d = 1 "
+            "(Lemmas/FoldPushRefl), detailed balance => reversibility => invariance incl. the rejection mass (Lemmas/MHKernel). "
+            "Still outside: the reflective fold in d >= 2 (needs the per-coordinate evenness that finite F21 shows to fail for "
+            "correlated covariances), likelihoods with value -inf (the theorems take a real-valued measurable log-likelihood), "
+            "and IEEE rounding (theorems over the reals; the same model term runs at Float in the suites)",
+            "np.linalg.inv / np.linalg.cholesky inside ModeStatistics: modelled by Model/ModeStatsNum.lean (row-by-row potrf, "
+            "Gauss-Jordan inverse), PROVED to return L lower-triangular with positive diagonal, L L^T = Sigma, Sigma^-1 "
+            "(Props/C03Modes.lean), tied to the real class by suite mode-stats-model (tolerance 1e-11 cond max|entry|) and by the "
+            "exact oracle of harness/c03_modes.py; numpy's own algorithms (LAPACK potrf / getrf) are not modelled step by step",
             "`_check_convergence` / `_calculate_adaptive_steps` (number of steps) and the progress bar are outside the property"]
-ASSUMPTIONS = ["H_modes: mode statistics are finite, dof > 0, chol invertible with chol chol^T = Sigma and inv_cov = Sigma^-1 "
-               "(checked on the real ModeStatistics by suite mode-stats-consistency, not proved about numpy)",
-               "H_assign: the cluster assignment is a function of the walker INDEX, fixed during the step (what the runner sees). "
-               "The pipeline computes it from the walker's POSITION before the mutation; with a position-dependent assignment the "
-               "first step is not pi-invariant (see clauses/C03.md, clause 9) — outside the statement as the runners implement it",
+ASSUMPTIONS = ["H_modes: dof > 0 and the covariance handed to ModeStatistics is symmetric positive definite; then chol invertible, "
+               "chol chol^T = Sigma and inv_cov = Sigma^-1 are PROVED of the constructor model (C03_init_modes_satisfy_H_modes, "
+               "C03_step_law_invariant_model_modes) and checked on the real class (mode-stats-model, mode-stats-consistency)",
+               "H_tapes: numpy.random.gamma(shape, scale) / randn(d) / rand(n) have their documented laws (Mathlib's gammaMeasure "
+               "with rate 1/scale, d independent standard normals, uniform on [0,1)) and are independent of each other and of the "
+               "current state — the only probabilistic assumption left in C03_{tpcn,rwm}_step_law_invariant",
+               "H_assign: the cluster assignment is a function of the walker INDEX, fixed during the run — PROVED of the runner model "
+               "(C03_run_assignments_fixed, C03_run_write_sites) and checked by the run oracles. The PIPELINE computes it from the "
+               "walker's POSITION before the mutation; with a position-dependent assignment the first step is not pi-invariant "
+               "(C03_state_dependent_assignment_not_invariant; clauses/C03.md) — outside the statement as the runners implement it",
                "tpCN step size in (0,1): maintained by the code ([0, 0.99] after every adaptation: C03_tpcn_adapt_range; sigma = 0 is "
                "the identity step: C03_tpcn_sigma_zero); RWM: any real sigma",
                "current states lie in the unit cube — maintained by the step (C03_step_stays_in_cube)",
@@ -56,7 +75,7 @@ TOL = 1e-9
 
 def translators():
     from translate import g4_kernel
-    return [g4_kernel.generate()]
+    return [g4_kernel.generate(), g4_kernel.run_status()]
 
 
 # ------------------------------------------------------------------ real runners under tapes
@@ -406,6 +425,8 @@ def correspond(tier):
             c.sample({"op": line[:400], "impl": impl, "model": ans})
         out.append(c)
     out.append(_mode_stats_consistency(tier))
+    out += _run_suites(tier, drv)          # the run loop around the step, dispatch and wiring (Props/C03Run.lean)
+    out += c03_modes.correspond(tier)      # ModeStatistics.__init__ against its executable model (Props/C03Modes.lean)
     return out
 
 
@@ -652,6 +673,9 @@ def _cells(tier):
 
 
 def search(tier, hints):
+    run_found = _run_oracles(tier)          # exact, deterministic oracles on the run loop (cheap; before the chi-square cells)
+    if run_found:
+        return run_found
     base = common.seed()
     n = 200000 if tier == "quick" else 500000
     kinds = {h.get("kind") for h in hints if h.get("kind")}
@@ -697,12 +721,17 @@ def search(tier, hints):
                     found.append(f)
             if new:
                 break
+    found += c03_modes.search(tier, hints)                      # exact oracle: H_modes on the real ModeStatistics (clause 15)
     found.sort(key=lambda f: 1 if "known_id" in f else 0)      # unknown findings first
     return found
 
 
 def replay(obj):
     f = obj.get("failing_input", obj)
+    if f.get("oracle") == "c03run":
+        return _run_oracle_replay(f)
+    if f.get("oracle") == "c03ms":
+        return c03_modes.replay(f)
     if "witness" in f.get("replay", {}):
         from . import witnesses
         return witnesses.ALL[f["replay"]["witness"]]()
@@ -717,3 +746,737 @@ def replay(obj):
                       steps=f.get("steps", 1))
     return {"fails": bool(r["fails"]), "detail": f"chi2={r['chi2']:.1f} threshold={r['threshold']:.1f} "
                                                  f"(before step: {r['chi2_before']:.1f}) edge_ratio={r['edge_ratio']}"}
+
+
+# ====================================================================================================================
+# the RUN LOOP around the step, the constructor, the dispatch and the pipeline wiring
+# (Model/KernelRun.lean, Props/C03Run.lean, driver op `c03run.F`, G4 section `_run_section`)
+# ====================================================================================================================
+RULE = RULE + (
+    " Suites kernel-run-{tpcn,rwm}: the real `parallel_mcmc(..., sample=...)` (constructor, `_initialize_sigmas`, the `while True` "
+    "loop with `_adapt_sigma`, `_check_convergence` / `_calculate_adaptive_steps` all ENABLED) on the generated runners restricted to "
+    "d in 1..3, K in 1..3 (empty clusters occur; 15%: cluster 0 forced empty), n_steps in 1..3, n_max in 1..4 (so n_max < n_steps "
+    "occurs), sample in {tpcn, rwm} and, for the tpCN branch, 20% other strings; numpy.random.gamma/randn/rand are tapes over ALL "
+    "iterations (15% of the walkers with a hard coordinate get a forced out-of-cube normal vector per pass). ONE driver op "
+    "`c03run.F` = Model.KernelRun.parallelMcmc at Float on the same tapes; compared per pass: the step-size vector USED (snapshot of "
+    "runner.sigmas at the first _propose), alphas, in-bounds and accept bits, states, current_acceptance, adaptive_steps (exactly, "
+    "unless the value under int() is within 1e-9 of an integer), the stop decision, the adapted step sizes; at the end u, x, logl, "
+    "efficiency, acceptance, iteration, n_calls, sigma_0, assignments. Regime T; after a near tie in a decision the rest of that run "
+    "is not compared. The same runs are checked against exact oracles of the real code (see search). Non-trivial = K >= 2 or d >= 2 "
+    "or >= 2 passes. Suite mcmc-dispatch: parallel_mcmc / the two wrappers called with 15 distinct sentinels (positionally, by "
+    "keyword, with defaults) against recording stand-ins for the two runner classes and against the real constructors (run patched "
+    "to return the object): class chosen by `sample`, every constructor parameter / attribute receives its argument, arrays are "
+    "copies; Mutator.run with a stub state: keyword wiring into parallel_mcmc and write-back of the results.")
+MODELLED = [m for m in MODELLED if not m.startswith("`_check_convergence`")] + [
+    "run loop: `np.average(sigmas[:m], weights=sizes)`, `.mean()` are left folds in the model (regime T); `int(x)` of the "
+    "non-negative bounded step count is `floor`; the per-iteration gamma / normal / uniform draws, prior_transform(u') and "
+    "log_likelihood(x') are tapes; blobs and the progress bar are outside the model"]
+ASSUMPTIONS = ASSUMPTIONS + [
+    "run loop (Props/C03Run.lean): adaptation ACROSS steps makes the chain history-dependent; proved is what the one-step theorems "
+    "need at every pass (assignments fixed, one sigma vector per pass handed over only between passes, cube and tpCN range "
+    "invariants, diminishing adaptation |dsigma| <= 0.766/(t+1)); that diminishing adaptation + containment imply ergodicity of the "
+    "adaptive chain is textbook (Roberts & Rosenthal 2007), not formalised; the stopping rule depends on the acceptance history "
+    "(a stopping time) and is outside the invariance statement"]
+
+
+class RunTape:
+    """numpy.random.{gamma, randn, rand} over ALL passes of one run; pass and walker are announced by the instrumented `_propose`"""
+
+    def __init__(self, rng, strict, force_p):
+        self.rng, self.strict, self.force_p = rng, strict, force_p
+        self.passes = []
+        self.cur = None
+
+    def begin(self, it, k):
+        while len(self.passes) < it:
+            self.passes.append(dict(g={}, z={}, r=None, forced={}))
+        self.cur = (it - 1, k)
+        p = self.passes[it - 1]
+        if k not in p["forced"]:
+            p["forced"][k] = self.rng.choice([-1.0, 1.0]) if (self.strict and self.rng.random() < self.force_p) else 0.0
+
+    def gamma(self, *args, **kw):
+        if args or set(kw) != {"shape", "scale"}:
+            raise RuntimeError("gamma called with unexpected arguments")
+        sh, sc = float(kw["shape"]), float(kw["scale"])
+        g = self.rng.gammavariate(sh, sc) if (sh > 0 and sc > 0 and math.isfinite(sh) and math.isfinite(sc)) else 1.0
+        if not (g > 0 and math.isfinite(g)):
+            g = 1.0
+        it, k = self.cur
+        if k in self.passes[it]["g"]:
+            raise RuntimeError("second gamma draw for one walker in one pass")
+        self.passes[it]["g"][k] = (sh, sc, g)
+        return g
+
+    def randn(self, n):
+        it, k = self.cur
+        p = self.passes[it]
+        if k in p["z"]:
+            raise RuntimeError("second normal draw for one walker in one pass")
+        if p["forced"].get(k):
+            z = [p["forced"][k] * (30.0 + 5.0 * self.rng.random()) * (1 if i == 0 else self.rng.uniform(-1, 1)) for i in range(n)]
+        else:
+            z = [self.rng.gauss(0, 1) for _ in range(n)]
+        p["z"][k] = z
+        return np.array(z, dtype=float)
+
+    def rand(self, n):
+        it = self.cur[0]
+        if self.passes[it]["r"] is not None:
+            raise RuntimeError("second uniform draw in one pass")
+        self.passes[it]["r"] = [self.rng.random() for _ in range(n)]
+        return np.array(self.passes[it]["r"], dtype=float)
+
+
+def _gen_run_cfg(rng, kind):
+    while True:
+        cfg = _gen_runner(rng, kind)
+        if cfg["d"] <= 3 and cfg["K"] <= 3:
+            break
+    cfg["n_steps"] = rng.randint(1, 3)
+    cfg["n_max"] = rng.randint(1, 4)
+    cfg["sample"] = "rwm" if kind == "rwm" else ("tpcn" if rng.random() < 0.8 else rng.choice(["other", "TPCN", "", "RWM", "pcn"]))
+    if cfg["K"] >= 2 and not cfg["bad_index"] and rng.random() < 0.15:
+        cfg["assign"] = np.array([rng.randrange(1, cfg["K"]) for _ in range(cfg["n"])], dtype=int)     # cluster 0 empty
+    return cfg
+
+
+_INSTR, _HOOK = {}, [None]
+
+
+def _instrumented(cls, hooks):
+    """ONE instrumented subclass per runner class (ABC subclass checks are linear in the number of subclasses ever created);
+    the hooks of the current run are installed through `_HOOK`"""
+    _HOOK[0] = hooks
+    if cls not in _INSTR:
+        class Instrumented(cls):
+            def __init__(self, *a, **k):
+                super().__init__(*a, **k)
+                _HOOK[0](self)
+        Instrumented.__name__ = cls.__name__
+        _INSTR[cls] = Instrumented
+    return _INSTR[cls]
+
+
+def _strict_dims(cfg):
+    sp = set(int(i) for i in (cfg["per"] if cfg["per"] is not None else [])) | \
+        set(int(i) for i in (cfg["refl"] if cfg["refl"] is not None else []))
+    return [i for i in range(cfg["d"]) if i not in sp]
+
+
+def _real_run(cfg, rng, force_p=0.15):
+    """the real parallel_mcmc under tapes, everything enabled; returns (obs, out, error)"""
+    import tempest.mcmc as M
+    from tempest.modes import ModeStatistics
+    ms = ModeStatistics(cfg["means"], cfg["covs"], cfg["dofs"])
+    u = cfg["u"]
+    x = np.array([cfg["prior_transform"](t) for t in u])
+    logl, _ = cfg["log_likelihood"](x)
+    logl = np.array(logl, dtype=float)
+    strict = _strict_dims(cfg)
+    tape = RunTape(rng, strict, force_p)
+    obs = dict(passes=[], ll_rows=0, tape=tape, ms=ms, x0=x.copy(), logl0=logl.copy(), strict=strict, runner=None,
+               frozen=dict(assign=np.array(cfg["assign"]).copy(), means=ms.means.copy(), chol=ms.chol_covariances.copy(),
+                           inv=ms.inv_covariances.copy(), dof=ms.degrees_of_freedom.copy()))
+    classes = (M.TPCNRunner, M.RWMRunner)
+
+    def ll(xx):
+        obs["ll_rows"] += len(np.atleast_2d(xx))
+        return cfg["log_likelihood"](xx)
+
+    def hooks(runner):
+        obs["runner"] = runner
+        obs["cls"] = "tpcn" if classes[0] in type(runner).__mro__ else "rwm" if classes[1] in type(runner).__mro__ else "?"
+        obs["sigma_init"] = np.array(runner.sigmas, dtype=float).copy()
+        orig_prop, orig_fac, orig_calc = runner._propose, runner._compute_acceptance_factor, runner._calculate_adaptive_steps
+
+        def cur():
+            it = runner.iteration
+            while len(obs["passes"]) < it:
+                obs["passes"].append(dict(sig_snap=[], cand={}, u_before=np.array(runner.u, dtype=float).copy(),
+                                          logl_before=np.array(runner.logl, dtype=float).copy()))
+            return obs["passes"][it - 1]
+
+        def propose(k):
+            p = cur()
+            tape.begin(runner.iteration, k)
+            p["sig_snap"].append(np.array(runner.sigmas, dtype=float).copy())
+            c_ = orig_prop(k)
+            p["cand"][k] = np.array(c_, dtype=float).copy()
+            return c_
+
+        def factor(u_prime, logl_prime):
+            p = cur()
+            p["sig_snap"].append(np.array(runner.sigmas, dtype=float).copy())
+            f = orig_fac(u_prime, logl_prime)
+            p["u_prime"] = np.array(u_prime, dtype=float).copy()
+            p["logl_prime"] = np.array(logl_prime, dtype=float).copy()
+            p["factor"] = np.array(f, dtype=float).copy()
+            return f
+
+        def progress(alpha):
+            p = cur()
+            p["alpha"] = np.array(alpha, dtype=float).copy()
+            p["u_after"] = np.array(runner.u, dtype=float).copy()
+            p["x_after"] = np.array(runner.x, dtype=float).copy()
+            p["logl_after"] = np.array(runner.logl, dtype=float).copy()
+            p["sig_after"] = np.array(runner.sigmas, dtype=float).copy()
+            p["n_calls"] = int(runner.n_calls)
+
+        def calc(acc):
+            v = orig_calc(acc)
+            p = cur()
+            p["cur_acc"], p["steps"] = float(acc), v
+            return v
+
+        runner._propose = propose
+        runner._compute_acceptance_factor = factor
+        runner._update_progress_bar = progress
+        runner._calculate_adaptive_steps = calc
+
+    out = err = None
+    with warnings.catch_warnings():
+        warnings.simplefilter("ignore")
+        with common.patched(np.random, "gamma", tape.gamma), common.patched(np.random, "randn", tape.randn), \
+                common.patched(np.random, "rand", tape.rand), \
+                common.patched(M, "TPCNRunner", _instrumented(classes[0], hooks)), \
+                common.patched(M, "RWMRunner", _instrumented(classes[1], hooks)):
+            try:
+                out = M.parallel_mcmc(u, x, logl, None, cfg["assign"], cfg["beta"], ms, ll, cfg["prior_transform"], None,
+                                      cfg["n_steps"], cfg["n_max"], cfg["sample"], cfg["per"], cfg["refl"], False)
+            except IndexError:
+                err = "IndexError"
+    return obs, out, err
+
+
+def _blocks(rows3):
+    return "|".join(_rows(b) for b in rows3)
+
+
+def _c03run_line(cfg, obs, dummy=False):
+    ms, tape = obs["ms"], obs["tape"]
+    n, d = cfg["n"], cfg["d"]
+    per = [] if cfg["per"] is None else [int(i) for i in cfg["per"]]
+    refl = [] if cfg["refl"] is None else [int(i) for i in cfg["refl"]]
+    gs, rs, lps, zs, xps = [], [], [], [], []
+    if dummy:
+        gs, rs, lps = [[1.0] * n], [[0.5] * n], [[0.0] * n]
+        zs, xps = [np.zeros((n, d))], [np.zeros((n, d))]
+    else:
+        for tp, p in zip(tape.passes, obs["passes"]):
+            gs.append([tp["g"].get(k, (0.0, 0.0, 1.0))[2] for k in range(n)])
+            rs.append(tp["r"])
+            lps.append(p["logl_prime"])
+            zs.append([tp["z"][k] for k in range(n)])
+            xps.append(np.array([cfg["prior_transform"](t) for t in p["u_prime"]]))
+    return (f"c03run.F sample={cfg['sample'] or '<empty>'} d={d} mus={_rows(ms.means)} "
+            f"chols={'|'.join(_rows(m) for m in ms.chol_covariances)} invcovs={'|'.join(_rows(m) for m in ms.inv_covariances)} "
+            f"nus={flist(ms.degrees_of_freedom, f2hex)} beta={f2hex(cfg['beta'])} per={flist(per, str)} refl={flist(refl, str)} "
+            f"nsteps={cfg['n_steps']} nmax={cfg['n_max']} us={_rows(cfg['u'])} xs={_rows(obs['x0'])} "
+            f"assign={flist([int(a) for a in cfg['assign']], str)} ls={flist(obs['logl0'], f2hex)} "
+            f"gs={_rows(gs)} rs={_rows(rs)} lps={_rows(lps)} zs={_blocks(zs)} xps={_blocks(xps)}")
+
+
+def _prows(tok):
+    return [] if tok == "-" else [common.parse_list(r, hex2f) for r in tok.split(";")]
+
+
+def _run_invariants(cfg, obs, out):
+    """EXACT oracles of the property's run-level obligations on the real code (no model involved); -> list of violations"""
+    from tempest.mcmc import check_bounds
+    bad = []
+    r, fz, passes = obs["runner"], obs["frozen"], obs["passes"]
+    kind = obs["cls"]
+    if (cfg["sample"] == "rwm") != (kind == "rwm"):
+        bad.append(f"dispatch: sample={cfg['sample']!r} constructed the {kind} runner")
+    # H_assign and the other inputs of the step are not written by the run
+    if not np.array_equal(r.assignments, fz["assign"]) or not np.array_equal(np.asarray(cfg["assign"]), fz["assign"]):
+        bad.append(f"assignments changed during run: {fz['assign'].tolist()} -> {np.asarray(r.assignments).tolist()}")
+    ms = obs["ms"]
+    for nm, a, b in (("means", ms.means, fz["means"]), ("chol_covariances", ms.chol_covariances, fz["chol"]),
+                     ("inv_covariances", ms.inv_covariances, fz["inv"]), ("degrees_of_freedom", ms.degrees_of_freedom, fz["dof"])):
+        if not np.array_equal(a, b):
+            bad.append(f"mode statistics `{nm}` changed during run")
+    if r.beta != cfg["beta"] or r.periodic is not cfg["per"] or r.reflective is not cfg["refl"] or r.mode_stats is not ms:
+        bad.append("beta / periodic / reflective / mode_stats attribute changed during run")
+    n, d = cfg["n"], cfg["d"]
+    s0 = 2.38 / np.sqrt(d)
+    cap = min(s0, 0.99)
+    prev_sig = obs["sigma_init"]
+    for t, p in enumerate(passes, start=1):
+        snaps = p["sig_snap"]
+        if len(snaps) != n + 1 or "alpha" not in p:
+            bad.append(f"pass {t}: {len(snaps)} observation points instead of {n + 1} (n proposals + factor)")
+            break
+        # one sigma vector per pass, and it is what the previous pass left
+        if any(not np.array_equal(sn, snaps[0]) for sn in snaps):
+            bad.append(f"pass {t}: step sizes changed WITHIN the step: {[sn.tolist() for sn in snaps[:3]]}...")
+        if not np.array_equal(snaps[0], prev_sig):
+            bad.append(f"pass {t}: step sizes used {snaps[0].tolist()} are not the ones the previous pass left {prev_sig.tolist()}")
+        # hard-boundary rule
+        for k in range(n):
+            inb = bool(check_bounds(p["cand"][k], cfg["per"], cfg["refl"]))
+            if not inb:
+                if not np.array_equal(p["u_prime"][k], p["u_before"][k]):
+                    bad.append(f"pass {t} walker {k}: out-of-cube candidate was passed on to prior_transform / log_likelihood")
+                if p["alpha"][k] != 0.0 or not np.array_equal(p["u_after"][k], p["u_before"][k]):
+                    bad.append(f"pass {t} walker {k}: out-of-cube candidate not rejected (alpha={p['alpha'][k]})")
+            elif not np.array_equal(p["u_prime"][k], p["cand"][k]):
+                bad.append(f"pass {t} walker {k}: in-cube candidate altered before evaluation")
+        # the states stay in the cube
+        if obs["strict"] and not (np.all(p["u_after"][:, obs["strict"]] >= 0) and np.all(p["u_after"][:, obs["strict"]] <= 1)):
+            bad.append(f"pass {t}: a state left the unit cube")
+        # range (tpCN) and diminishing adaptation (both)
+        if kind == "tpcn" and not (np.all(p["sig_after"] >= 0) and np.all(p["sig_after"] <= cap)):
+            bad.append(f"pass {t}: tpCN step size outside [0, min(sigma_0, 0.99)]: {p['sig_after'].tolist()}")
+        if np.any(np.abs(p["sig_after"] - snaps[0]) > 0.766 / (t + 1) + 1e-12):
+            bad.append(f"pass {t}: adaptation moved a step size by more than 0.766/{t + 1}: {snaps[0].tolist()} -> {p['sig_after'].tolist()}")
+        for c_ in range(cfg["K"]):
+            if not np.any(fz["assign"] == c_) and p["sig_after"][c_] != snaps[0][c_]:
+                bad.append(f"pass {t}: step size of the empty cluster {c_} changed")
+        if p["n_calls"] != t * n:
+            bad.append(f"pass {t}: n_calls = {p['n_calls']} after {t} passes of {n} walkers")
+        prev_sig = p["sig_after"]
+    if out is not None and passes and "alpha" in passes[-1]:
+        T = len(passes)
+        last = passes[-1]
+        if out[6] != T or r.iteration != T:
+            bad.append(f"iteration = {out[6]} after {T} passes")
+        if out[7] != obs["ll_rows"] or out[7] != T * n:
+            bad.append(f"n_calls = {out[7]}, likelihood rows evaluated = {obs['ll_rows']}, passes x walkers = {T * n}")
+        lo, hi = max(1, min(cfg["n_steps"], cfg["n_max"]) * d), max(1, cfg["n_max"] * d)
+        if not (lo <= T <= hi):
+            bad.append(f"{T} passes, outside [{lo}, {hi}] = [max(1, min(n_steps, n_max) d), max(1, n_max d)]")
+        eff = last["sig_after"].mean() / s0
+        if not _close(float(out[4]), float(eff), 1.0) or not np.array_equal(r.sigmas, last["sig_after"]):
+            bad.append(f"efficiency {out[4]} is not mean(final sigmas)/sigma_0 = {eff}")
+        if not _close(float(out[5]), float(last["alpha"].mean()), 1.0):
+            bad.append(f"acceptance {out[5]} is not the mean alpha of the last step {last['alpha'].mean()}")
+        if not (np.array_equal(out[0], last["u_after"]) and np.array_equal(out[2], last["logl_after"], equal_nan=True)):
+            bad.append("returned u / logl are not the states after the last step")
+    return bad
+
+
+def _compare_run(c, cfg, obs, out, line, ans, kind):
+    from tempest.mcmc import check_bounds
+    toks = ans.split(" ")
+    n, d, passes, tape = cfg["n"], cfg["d"], obs["passes"], obs["tape"]
+    if len(toks) < 12 or toks[0] not in ("done", "outOfTape", "indexError") or len(toks) != 12 + int(toks[11]):
+        c.disagree(input=line[:500], impl="run", model=ans[:300], kind=kind, what=["format"])
+        return
+    T = len(passes)
+    P = int(toks[11])
+    bad = []
+    tie = False
+    for t in range(min(T, P)):
+        f = toks[12 + t].split("/")
+        p, tp = passes[t], tape.passes[t]
+        if len(f) != 11:
+            bad.append(f"pass{t + 1}:format")
+            break
+        m_used, m_alpha = common.parse_list(f[0], hex2f), common.parse_list(f[1], hex2f)
+        m_acc, m_inb = [x == "1" for x in f[2].split(",")], [x == "1" for x in f[3].split(",")]
+        m_u = _prows(f[4])
+        m_cur, m_steps, m_stop = hex2f(f[5]), hex2f(f[7]), f[8] == "1"
+        m_new, m_bounded = common.parse_list(f[9], hex2f), hex2f(f[10])
+        if len(m_used) != cfg["K"] or not all(_close(a, b, abs(b)) for a, b in zip(p["sig_snap"][0], m_used)):
+            bad.append(f"pass{t + 1}:sigma_used")
+            break
+        for k in range(n):
+            inb = bool(check_bounds(p["cand"][k], cfg["per"], cfg["refl"]))
+            if inb != m_inb[k]:
+                cand = p["cand"][k]
+                if min([min(abs(cand[i]), abs(1.0 - cand[i])) for i in obs["strict"]] or [math.inf]) < 1e-9:
+                    tie = True
+                else:
+                    bad.append(f"pass{t + 1}:in_bounds[{k}]")
+                break
+            c.count("in_bounds" if inb else "out_of_bounds_rejected")
+            lp_, l_ = float(p["logl_prime"][k]), float(p["logl_before"][k])
+            sc = abs(float(p["factor"][k])) + (abs(cfg["beta"] * (lp_ - l_)) if math.isfinite(lp_ - l_) else 0.0)
+            if not _close(float(p["alpha"][k]), m_alpha[k], sc):
+                bad.append(f"pass{t + 1}:alpha[{k}]")
+                break
+            r_ = tp["r"][k]
+            if inb and (abs(r_ - p["alpha"][k]) < 1e-9 or abs(r_ - m_alpha[k]) < 1e-9):
+                tie = True
+                break
+            if bool(r_ < p["alpha"][k]) != m_acc[k]:
+                bad.append(f"pass{t + 1}:accept[{k}]")
+                break
+            c.count("accepted" if m_acc[k] else "rejected")
+            if len(m_u) != n or not all(_close(a, b, abs(b)) for a, b in zip(p["u_after"][k], m_u[k])):
+                bad.append(f"pass{t + 1}:new_state[{k}]")
+                break
+        if bad or tie:
+            break
+        if not all(_close(a, b, abs(b)) for a, b in zip(p["sig_after"], m_new)) or len(m_new) != cfg["K"]:
+            bad.append(f"pass{t + 1}:adapted_sigmas")
+            break
+        for cl in range(cfg["K"]):
+            if not np.any(cfg["assign"] == cl) and m_new[cl] != m_used[cl]:
+                bad.append(f"pass{t + 1}:empty_cluster_sigma")
+        if "steps" in p:
+            if not _close(p["cur_acc"], m_cur, 1.0):
+                bad.append(f"pass{t + 1}:current_acceptance")
+                break
+            if float(p["steps"]) != m_steps:
+                if abs(m_bounded - round(m_bounded)) <= 1e-9 * (1.0 + abs(m_bounded)) and abs(float(p["steps"]) - m_steps) <= 1:
+                    tie = True
+                else:
+                    bad.append(f"pass{t + 1}:adaptive_steps")
+                break
+            c.count("stop:max_bound" if m_bounded >= cfg["n_max"] * d else
+                    "stop:min_bound" if m_bounded <= cfg["n_steps"] * d else "stop:adaptive_value")
+        if m_stop != (t == T - 1):
+            bad.append(f"pass{t + 1}:stop_decision")
+            break
+    if tie:
+        c.near_ties += 1
+        c.count("near_tie:rest_of_run_not_compared")
+        return
+    if not bad:
+        if toks[0] != "done" or P != T or int(toks[1]) != out[6] or int(toks[2]) != out[7]:
+            bad.append("status/iteration/n_calls")
+        else:
+            fs = float(np.abs(out[0]).max()) if n else 0.0
+            if not _close(float(out[4]), hex2f(toks[3]), 1.0):
+                bad.append("efficiency")
+            if not _close(float(out[5]), hex2f(toks[4]), 1.0):
+                bad.append("acceptance")
+            if not all(_close(a, b, abs(b)) for a, b in zip(obs["runner"].sigmas, common.parse_list(toks[5], hex2f))):
+                bad.append("final_sigmas")
+            mu_, mx_ = _prows(toks[6]), _prows(toks[7])
+            if len(mu_) != n or not all(_close(a, b, abs(b)) for ra, rb in zip(out[0], mu_) for a, b in zip(ra, rb)):
+                bad.append("final_u")
+            if len(mx_) != n or not all(_close(a, b, abs(b)) for ra, rb in zip(out[1], mx_) for a, b in zip(ra, rb)):
+                bad.append("final_x")
+            if not all(_close(float(a), b, abs(b)) for a, b in zip(out[2], common.parse_list(toks[8], hex2f))):
+                bad.append("final_logl")
+            if [int(a) for a in obs["runner"].assignments] != common.parse_list(toks[9], int) \
+                    or [int(a) for a in cfg["assign"]] != common.parse_list(toks[9], int):
+                bad.append("final_assignments")
+            if not _close(float(obs["runner"].sigma_0), hex2f(toks[10]), 3.0):
+                bad.append("sigma_0")
+    if bad:
+        last = passes[-1] if passes else {}
+        c.disagree(input=line[:700], impl={"passes": T, "iteration": out[6], "n_calls": out[7], "efficiency": float(out[4]),
+                                           "acceptance": float(out[5]), "sigmas": np.asarray(obs["runner"].sigmas).tolist(),
+                                           "adaptive_steps": [p.get("steps") for p in passes]},
+                   model=" ".join(toks[:6] + toks[11:12]) + " | " + " ".join(toks[12:])[:400], what=bad, kind=kind)
+
+
+def _run_suites(tier, drv):
+    n_runners = 300 if tier == "quick" else 3000
+    out = []
+    for kind in ("tpcn", "rwm"):
+        rng = common.rng_for("C03.run." + kind)
+        c = Corr(f"kernel-run-{kind}", "toleranced Float (T): values 1e-9(1+scale), decisions and int() exact unless margin < 1e-9")
+        lines, metas = [], []
+        for idx in range(n_runners):
+            cfg = _gen_run_cfg(rng, kind)
+            try:
+                obs, res, err = _real_run(cfg, rng)
+            except Exception as e:
+                c.disagree(input={k: (v.tolist() if isinstance(v, np.ndarray) else v) for k, v in cfg.items() if not callable(v)},
+                           impl=f"raised {type(e).__name__}: {e}", model="a run", kind=kind)
+                continue
+            if cfg["bad_index"]:
+                lines.append(_c03run_line(cfg, obs, dummy=True))
+                metas.append(("error", cfg, obs, res, err))
+                c.case(lines[-1], True)
+                c.count("malformed:assignment_out_of_range")
+                continue
+            if err is not None or res is None or not obs["passes"] or "alpha" not in obs["passes"][-1]:
+                c.disagree(input="harness", impl=f"error={err}, passes={len(obs['passes'])}", model="a complete run", kind=kind)
+                continue
+            lines.append(_c03run_line(cfg, obs))
+            metas.append(("run", cfg, obs, res, err))
+            T = len(obs["passes"])
+            for t in range(T):
+                c.case([lines[-1], t], cfg["K"] >= 2 or cfg["d"] >= 2 or T >= 2)
+            c.count(f"d={cfg['d']}")
+            c.count(f"K={cfg['K']}")
+            c.count(f"passes={T}")
+            c.count(f"n_steps={cfg['n_steps']},n_max={cfg['n_max']}")
+            c.count(f"sample={cfg['sample']!r}")
+            if cfg["n_max"] < cfg["n_steps"]:
+                c.count("n_max<n_steps")
+            used = {int(a) for a in cfg["assign"]}
+            if len(used) < cfg["K"]:
+                c.count("empty_cluster")
+                if 0 not in used:
+                    c.count("first_cluster_empty(weighted_sigma_pairs_wrong_cluster)")
+            if cfg["per"] is not None or cfg["refl"] is not None:
+                c.count("folded_coordinates")
+            for v in _run_invariants(cfg, obs, res):
+                c.disagree(input=lines[-1][:500], impl="run-level invariant violated on the real code: " + v,
+                           model="Props/C03Run.lean", kind=kind, what=["invariant"], oracle_index=idx)
+        answers = drv.batch(lines)
+        for (tag, cfg, obs, res, err), line, ans in zip(metas, lines, answers):
+            if tag == "error":
+                if not (ans.split(" ")[0] == "indexError" and err == "IndexError"):
+                    c.disagree(input=line[:500], impl=err or "no error", model=ans[:100], kind=kind, what=["index_error"])
+                continue
+            _compare_run(c, cfg, obs, res, line, ans, kind)
+            c.sample({"op": line[:300], "impl": {"passes": len(obs["passes"]), "iteration": res[6], "n_calls": res[7],
+                                                 "efficiency": float(res[4])}, "model": ans[:200]})
+        out.append(c)
+    out.append(_dispatch_suite(tier))
+    return out
+
+
+# ------------------------------------------------------------------ dispatch and wiring
+_P15 = ["u", "x", "logl", "blobs", "assignments", "beta", "mode_stats", "log_likelihood", "prior_transform", "progress_bar",
+        "n_steps", "n_max", "periodic", "reflective", "verbose"]
+
+
+class _Sentinel:
+    def __init__(self, name):
+        self.name = name
+
+    def __repr__(self):
+        return f"<{self.name}>"
+
+
+def _dispatch_suite(tier):
+    import inspect
+    import tempest.mcmc as M
+    c = Corr("mcmc-dispatch", "exact (object identity of sentinels; array equality and non-aliasing)")
+    rng = common.rng_for("C03.dispatch")
+    real = {"tpcn": M.TPCNRunner, "rwm": M.RWMRunner}
+    base_sig = inspect.signature(M.BaseMCMCRunner.__init__)
+    calls = []
+
+    def standin(tag):
+        class Rec:
+            def __init__(self, *a, **k):
+                calls.append((tag, a, k))
+                self.tag = tag
+
+            def run(self):
+                return ("ran", self.tag, len(calls))
+        return Rec
+
+    entry = {"parallel_mcmc": M.parallel_mcmc, "tpcn_wrapper": M.parallel_t_preconditioned_crank_nicolson,
+             "rwm_wrapper": M.parallel_random_walk_metropolis}
+    samples = ["tpcn", "rwm", "other", "", "RWM", "rwm ", None]
+    reps = 6 if tier == "quick" else 40
+    for rep in range(reps):
+        for fname, fn in entry.items():
+            for sample in (samples if fname == "parallel_mcmc" else [None]):
+                for style in ("positional", "keyword", "defaults", "mixed"):
+                    sent = {p: _Sentinel(f"{p}#{rng.randrange(10 ** 6)}") for p in _P15}
+                    given = list(_P15) if style != "defaults" else _P15[:9]
+                    if style == "positional":
+                        a = [sent[p] for p in given]
+                        if fname == "parallel_mcmc":       # sample sits between n_max and periodic
+                            a = a[:12] + [sample if sample is not None else "tpcn"] + a[12:]
+                        kw = {}
+                    else:
+                        cut = 0 if style == "keyword" else (9 if style == "defaults" else rng.randint(1, 9))
+                        a = [sent[p] for p in given[:cut]]
+                        names = given[cut:]
+                        rng.shuffle(names)
+                        kw = {p: sent[p] for p in names}
+                        if fname == "parallel_mcmc" and sample is not None:
+                            kw["sample"] = sample
+                    del calls[:]
+                    with common.patched(M, "TPCNRunner", standin("tpcn")), common.patched(M, "RWMRunner", standin("rwm")):
+                        ret = fn(*a, **kw)
+                    eff_sample = (sample if sample is not None else "tpcn") if fname == "parallel_mcmc" else None
+                    want = {"parallel_mcmc": "rwm" if eff_sample == "rwm" else "tpcn", "tpcn_wrapper": "tpcn",
+                            "rwm_wrapper": "rwm"}[fname]
+                    key = [fname, sample, style]
+                    c.case(key + [rep], True)
+                    c.count(f"{fname}:sample={sample!r}:{style}")
+                    bad = []
+                    if len(calls) != 1 or calls[0][0] != want:
+                        bad.append(f"constructed {[t for t, _, _ in calls]}, expected [{want}]")
+                    elif ret != ("ran", want, 1):
+                        bad.append(f"return value {ret!r} is not runner.run()")
+                    else:
+                        try:
+                            b = base_sig.bind(None, *calls[0][1], **calls[0][2])
+                        except TypeError as e:
+                            bad.append(f"constructor arguments do not bind: {e}")
+                        else:
+                            b.apply_defaults()
+                            wrapper_sig = inspect.signature(fn)
+                            for p in _P15:
+                                got = b.arguments[p]
+                                exp = sent[p] if p in given else wrapper_sig.parameters[p].default
+                                if got is not exp and got != exp:
+                                    bad.append(f"constructor parameter {p} received {got!r}, expected {exp!r}")
+                    if bad:
+                        c.disagree(input={"function": fname, "sample": sample, "style": style}, impl=bad[:4],
+                                   model="Gen.Kernel.dispatchRule / bindTable (C03_run_dispatch_tables)", kind=want)
+    # the REAL constructors: every attribute receives its argument (run patched to hand back the object)
+    from tempest.modes import ModeStatistics
+    for rep in range(reps):
+        for sample in ("tpcn", "rwm", "other"):
+            d, K, n = rng.randint(1, 3), rng.randint(1, 3), rng.randint(2, 5)
+            u = np.array([[rng.uniform(0.1, 0.9) for _ in range(d)] for _ in range(n)])
+            x = u * 2.0 - 1.0
+            logl = np.array([rng.gauss(0, 1) for _ in range(n)])
+            blobs = np.array([[rng.random()] for _ in range(n)]) if rng.random() < 0.5 else None
+            assign = np.array([rng.randrange(K) for _ in range(n)], dtype=int)
+            ms = ModeStatistics(np.full((K, d), 0.5), np.array([np.eye(d) * 0.05] * K), np.full(K, 3.0))
+            beta = rng.uniform(0.05, 1.0)
+            per = np.array([0]) if rng.random() < 0.4 else None
+            refl = np.array([d - 1]) if (d > 1 and rng.random() < 0.4) else None
+            n_steps, n_max = rng.randint(1, 50), rng.randint(1, 500)
+            ll, pt, pb = (lambda z: (np.zeros(len(z)), None)), (lambda t: t), _Sentinel("pbar")
+            verbose = rng.random() < 0.5
+            with common.patched(M.BaseMCMCRunner, "run", lambda self: self):
+                r = M.parallel_mcmc(u, x, logl, blobs, assign, beta, ms, ll, pt, pb, n_steps, n_max, sample, per, refl, verbose)
+            c.case(["real-ctor", sample, rep], True)
+            c.count(f"real_constructor:sample={sample!r}")
+            bad = []
+            if type(r) is not real["rwm" if sample == "rwm" else "tpcn"]:
+                bad.append(f"class {type(r).__name__}")
+            else:
+                chk = [("beta", r.beta == beta), ("mode_stats", r.mode_stats is ms), ("log_likelihood", r.log_likelihood is ll),
+                       ("prior_transform", r.prior_transform is pt), ("progress_bar", r.progress_bar is pb),
+                       ("n_steps", r.n_steps == n_steps), ("n_max", r.n_max == n_max), ("periodic", r.periodic is per),
+                       ("reflective", r.reflective is refl), ("verbose", r.verbose is verbose),
+                       ("u", np.array_equal(r.u, u) and r.u is not u and not np.shares_memory(r.u, u)),
+                       ("x", np.array_equal(r.x, x) and not np.shares_memory(r.x, x)),
+                       ("logl", np.array_equal(r.logl, logl) and not np.shares_memory(r.logl, logl)),
+                       ("assignments", np.array_equal(r.assignments, assign) and not np.shares_memory(r.assignments, assign)),
+                       ("blobs", (r.blobs is None) if blobs is None else (np.array_equal(r.blobs, blobs) and not np.shares_memory(r.blobs, blobs))),
+                       ("n_walkers,n_dim", (r.n_walkers, r.n_dim) == (n, d)), ("n_clusters", r.n_clusters == K),
+                       ("n_calls", r.n_calls == 0), ("iteration", r.iteration == 0),
+                       ("sigma_0", r.sigma_0 == 2.38 / np.sqrt(d)),
+                       ("sigmas", np.array_equal(r.sigmas, np.ones(K) * (r.sigma_0 if sample == "rwm" else min(r.sigma_0, 0.99)))),
+                       ("chol_covs", r.chol_covs is ms.chol_covariances)]
+                if sample != "rwm":
+                    chk += [("means", r.means is ms.means), ("inv_covs", r.inv_covs is ms.inv_covariances),
+                            ("degrees_of_freedom", r.degrees_of_freedom is ms.degrees_of_freedom)]
+                bad = [nm for nm, ok in chk if not ok]
+            if bad:
+                c.disagree(input={"sample": sample, "d": d, "K": K, "n": n}, impl={"wrong attributes": bad},
+                           model="Model.KernelRun.construct (C03_run_construct, initStores)", kind="rwm" if sample == "rwm" else "tpcn")
+    _mutator_wiring(c, rng, reps)
+    c.sample({"checked": "parallel_mcmc / wrappers with sentinel arguments; real constructors; Mutator.run -> parallel_mcmc"})
+    return c
+
+
+def _mutator_wiring(c, rng, reps):
+    """Mutator.run (beta > 0 branch): what it reads from the state is what parallel_mcmc receives, under the right keyword; what
+    parallel_mcmc returns is written back"""
+    import tempest.steps.mutate as MU
+
+    class State:
+        def __init__(self, cur):
+            self.cur = cur
+
+        def get_current(self, k):
+            return self.cur.get(k)
+
+        def set_current(self, k, v):
+            self.cur[k] = v
+
+        def update_current(self, dct):
+            self.cur.update(dct)
+
+    class Modes:
+        def __init__(self, idx, labels):
+            self.idx, self.labels, self.seen = idx, labels, None
+
+        def mode_index(self, assignments, u):
+            self.seen = (assignments, u)
+            return self.idx, self.labels
+
+    for rep in range(reps):
+        for sampler in ("tpcn", "rwm"):
+            for have_blobs in (False, True):
+                s = {k: _Sentinel(f"state.{k}#{rng.randrange(10 ** 6)}") for k in ("u", "x", "logl", "assignments")}
+                s["beta"] = rng.uniform(0.01, 1.0)
+                s["calls"] = rng.randint(0, 10 ** 6)
+                s["blobs"] = np.array([[1.0], [2.0]]) if have_blobs else None
+                state = State(dict(s))
+                idx, labels = _Sentinel("mode_index"), _Sentinel("mode_labels")
+                modes = Modes(idx, labels)
+                pt, ll, pbar = _Sentinel("prior_transform"), _Sentinel("log_likelihood"), _Sentinel("pbar")
+                per, refl = _Sentinel("periodic"), _Sentinel("reflective")
+                n_steps, n_max = rng.randint(1, 100), rng.randint(1, 5000)
+                ret = dict(u=_Sentinel("ret.u"), x=_Sentinel("ret.x"), logl=_Sentinel("ret.logl"), blobs=np.array([[7.0], [8.0]]),
+                           efficiency=rng.random(), acceptance=rng.random(), steps=rng.randint(1, 99), calls=rng.randint(1, 9999))
+                got = {}
+
+                def fake(*a, **kw):
+                    got["a"], got["kw"] = a, kw
+                    return (ret["u"], ret["x"], ret["logl"], ret["blobs"], ret["efficiency"], ret["acceptance"], ret["steps"], ret["calls"])
+
+                mut = MU.Mutator(state, pt, ll, pbar, 2, 1, n_steps, n_max, sampler, per, refl, have_blobs)
+                with common.patched(MU, "parallel_mcmc", fake):
+                    mut.run(modes)
+                c.case(["mutator", sampler, have_blobs, rep], True)
+                c.count(f"mutator_wiring:sampler={sampler},blobs={have_blobs}")
+                import inspect
+                import tempest.mcmc as M
+                bad = []
+                try:
+                    b = inspect.signature(M.parallel_mcmc).bind(*got.get("a", ()), **got.get("kw", {}))
+                except TypeError as e:
+                    bad.append(f"arguments do not bind: {e}")
+                else:
+                    b.apply_defaults()
+                    exp = dict(u=s["u"], x=s["x"], logl=s["logl"], blobs=s["blobs"], assignments=idx, beta=s["beta"], mode_stats=modes,
+                               log_likelihood=ll, prior_transform=pt, progress_bar=pbar, n_steps=n_steps, n_max=n_max, sample=sampler,
+                               periodic=per, reflective=refl)
+                    for k, v in exp.items():
+                        g = b.arguments[k]
+                        if g is not v and not (isinstance(v, (int, float)) and g == v):
+                            bad.append(f"parallel_mcmc parameter {k} received {g!r}, expected {v!r}")
+                    if modes.seen is None or modes.seen[0] is not s["assignments"] or modes.seen[1] is not s["u"]:
+                        bad.append("mode_index not computed from the state's assignments and u")
+                    cur = state.cur
+                    wb = [("u", cur["u"] is ret["u"]), ("x", cur["x"] is ret["x"]), ("logl", cur["logl"] is ret["logl"]),
+                          ("efficiency", cur.get("efficiency") == ret["efficiency"]), ("acceptance", cur.get("acceptance") == ret["acceptance"]),
+                          ("steps", cur.get("steps") == ret["steps"]), ("calls", cur.get("calls") == s["calls"] + ret["calls"]),
+                          ("assignments", cur["assignments"] is labels)]
+                    if have_blobs:
+                        wb.append(("blobs", np.array_equal(cur["blobs"], ret["blobs"])))
+                    bad += [f"state[{nm}] not written back" for nm, ok in wb if not ok]
+                if bad:
+                    c.disagree(input={"sampler": sampler, "have_blobs": have_blobs}, impl=bad[:4],
+                               model="Mutator.run passes its state and options to parallel_mcmc under the same names", kind=sampler)
+
+
+# ------------------------------------------------------------------ exact run-level oracles for `search` / replay
+def _run_oracle_case(kind, seed, index):
+    import random as _r
+    rng = _r.Random(f"C03.runoracle.{kind}.{seed}.{index}")
+    cfg = _gen_run_cfg(rng, kind)
+    while cfg["bad_index"]:
+        cfg = _gen_run_cfg(rng, kind)
+    obs, res, err = _real_run(cfg, rng)
+    if err is not None or res is None:
+        return cfg, [f"the run raised {err}"]
+    return cfg, _run_invariants(cfg, obs, res)
+
+
+def _run_oracles(tier):
+    found = []
+    base = common.seed()
+    for kind in ("tpcn", "rwm"):
+        for index in range(40 if tier == "quick" else 300):
+            try:
+                cfg, bad = _run_oracle_case(kind, base, index)
+            except Exception as e:       # a crash of the real run on a valid input
+                cfg, bad = {}, [f"the instrumented run crashed: {type(e).__name__}: {e}"]
+            if bad:
+                found.append({"what": "run-level obligation of the mutation kernels violated on the real runner "
+                                      "(parallel_mcmc under tapes, everything enabled): " + bad[0],
+                              "oracle": "c03run", "kind": kind, "seed": base, "index": index, "all": bad[:5],
+                              "d": cfg.get("d"), "K": cfg.get("K"), "n_steps": cfg.get("n_steps"), "n_max": cfg.get("n_max"),
+                              "sample": cfg.get("sample")})
+                break
+    return found
+
+
+def _run_oracle_replay(f):
+    cfg, bad = _run_oracle_case(f["kind"], f["seed"], f["index"])
+    return {"fails": bool(bad), "detail": "; ".join(bad[:3]) or "all run-level oracles hold"}
